@@ -15,7 +15,7 @@ CLAIMED = {
     "C03": (K + "One inductive step of the scanner (load_cdp from an arbitrary position; sizes and filter decisions concrete per instance, all other header/payload bytes symbolic) establishes offset/field/payload truthfulness and the position invariant, which covers chains of any length; offset range and filter predicates for all values. Real files/pipes and the 100-packet batching are outside.", "DESIGN.md §2 C03, §7.2(4)"),
     "C04": (K + "Unit-level crash freedom in release semantics for the input-facing units that could be encoded (lane checks, FEE ids, RDH validators, chunking, ALPIDE decoder step, truncation). It is NOT a statement about the process: threads, signals, stdout and stave-mode word processing are outside.", "DESIGN.md §2 C04, §7.2(6)"),
     "C07": (K + "Composition of solver-decided facts: true packet offset and bytes from the scanner step, chunk i = slice at i*slot, every report of a validator step carries offset + 64 + index*slot and quotes exactly the word's bytes, offset formulas for all indices.", "DESIGN.md §2 C07"),
-    "C08": (K + "Header re-serialisation is the identity for all 2^512 headers; the scanner step delivers exactly the matching packets' bytes; match predicates for all values; the writer hands rdh|payload pairs to its sink in order across a threshold flush. Files/stdout/threads are outside.", "DESIGN.md §2 C08"),
+    "C08": (K + "Header re-serialisation is the identity for all 2^512 headers; the scanner step delivers exactly the matching packets' bytes; match predicates for all values. The writer's buffer/flush logic (best-effort harness exhausts memory), files, stdout and threads are outside.", "DESIGN.md §2 C08"),
     "C09": (K + "The payload state machine is bisimilar to the documented diagram over all word sequences of length <= 8 from the initial state (all implementation states and edges covered) and for one step from every reachable state; illegal identifiers are reported at the word in every state class.", "DESIGN.md §2 C09"),
     "C10": (K + "RDH sanity verdict == documented rules for all 2^512 headers (three configurations); running-check verdict == documented automaton for all 3-header histories from an HBF start and one step from an arbitrary checker state (induction over histories).", "DESIGN.md §2 C10"),
     "C11": (K + "All 2^80 values of each status word and all data-word ids x lane masks: the implementation's sanity verdict equals the documented rule. The kernels are decided over their whole input domain; the level stays 'other' because the engine is a bounded model checker, not a proof assistant.", "DESIGN.md §2 C11"),
